@@ -1,9 +1,12 @@
+import logging
 from typing import Tuple, Type, Union
 
 from indi import message
 from indi.client import elements
 from indi.client.events import StateUpdate
 from indi.message import checks
+
+logger = logging.getLogger(__name__)
 
 
 class Vector:
@@ -72,7 +75,14 @@ class Vector:
             for ch in msg.children:
                 el = self.elements.get(ch.name)
                 if el:
-                    el.process_message(ch)
+                    try:
+                        el.process_message(ch)
+                    except (ValueError, TypeError, AssertionError):
+                        # an element that cannot be applied is skipped, like on
+                        # the driver side: it must not stop the receive loop
+                        logger.exception(
+                            "Vector %s: element %s ignored", self.name, ch.name
+                        )
 
     def submit(self):
         ch = []
